@@ -1,7 +1,7 @@
 (* C01 - property theorems (statements only; the proofs live in Acme.C01.ProofsXxx / Acme.C07.ProofsXxx). *)
 From Coq Require Import ZArith List Sorted.
 From Acme.C01 Require Import Layout State Model ProofsLayout ProofsInv Refuted ProofsT1 ProofsSpec ProofsFrame ProofsAccept Examples.
-From Acme.C07 Require Import Proofs ProofsReg ProofsFinal ProofsEffect.
+From Acme.C07 Require Import Proofs ProofsReg ProofsFinal ProofsEffect ProofsRange.
 Open Scope Z_scope.
 
 (* the boolean predicate evaluated on the implementation's snapshots is the declarative one *)
@@ -260,3 +260,10 @@ Theorem remove_effect : forall s m x, pmux s x = None -> is_ok (snd (step_remove
   /\ ugroups s' = ugroups s.
 Proof. exact ProofsEffect.remove_effect. Qed.
 Print Assumptions remove_effect.
+
+(* every signal of the layout tree of a message (top level or inside multiplexers, at any depth) occupies an
+   absolute bit range inside the payload *)
+Theorem payload_range_all_depths : forall ops, ok_hist_f ops -> forall m x, in_tree (run ops) m x ->
+  0 <= start_bit (run ops) x /\ start_bit (run ops) x + sz (run ops) x <= 8 * gbytes (run ops) m.
+Proof. exact range_reachable. Qed.
+Print Assumptions payload_range_all_depths.
